@@ -12,7 +12,10 @@ import itertools
 from common.coqlit import Err
 
 ID = 'C15'
-KERNELS = []
+KERNELS = ['Gen/SchemaNames.v: schema_keeps_right', 'Gen/SchemaNames.v: row_has_right_parts',
+           'Gen/SchemaNames.v: pivot_name_schema / pivot_name_row',
+           'Gen/SchemaNames.v: fmt_add fmt_mul fmt_neg fmt_call lit_null',
+           'Gen/SchemaNames.v: name_count name_sum name_min name_max count_star_arg']
 SHARD = 150
 RULE = ('programs of 1-3 base tables (0-4 rows over columns k,v,w,x,..., ints and None, incl. duplicate column '
         'names) followed by op chains of length <= 4 drawn from 17 operation kinds with parameters taken from '
@@ -33,7 +36,8 @@ ASSUMPTIONS = [
     'counts are compared',
     'drop() of an absent column raises AnalysisException (DESIGN section 5, out of scope): generators avoid it',
 ]
-TRUSTED = ['py/c15.py scripted sampler (replaces BernoulliSampler/PoissonSampler decisions, not the sampling RDD)']
+TRUSTED = ['translator/kernels/c15.py (join field-group tables, pivot / expression / aggregate name formats)',
+           'py/c15.py scripted sampler (replaces BernoulliSampler/PoissonSampler decisions, not the sampling RDD)']
 
 # ----------------------------------------------------------------------------------------------
 # instruction encoding (mirrors coq/Run/C15_run.v)
